@@ -58,7 +58,8 @@ class World:
     def _default(self, name):
         self._n += 1
         # distinct, non-integer, moderate magnitude, exactly representable
-        return Fraction(2 * self._n + 1, 8) + Fraction(self._n % 3, 1)
+        v = Fraction(2 * self._n + 1, 8) + Fraction(self._n % 3, 1)
+        return -v if self._n % 4 == 3 else v  # mixed signs: sign-dependent slips show on the default inputs too
 
     def real(self, name, default=None):
         if name in self.inputs:
